@@ -6,14 +6,18 @@ type SharedInfo struct{ Name string }
 
 type eventCtx struct{}
 
-func (e *Engine) evLoad(fr *frame, c *Cell) Value                       { panic(engineErr("event mode not built")) }
-func (e *Engine) evStore(fr *frame, c *Cell, v Value)                   { panic(engineErr("event mode not built")) }
-func (e *Engine) evMapFind(fr *frame, m *MapVal, k Value) *mapEntry     { panic(engineErr("event mode not built")) }
-func (e *Engine) evChanClose(fr *frame, ch *ChanVal)                    { panic(engineErr("event mode not built")) }
-func (e *Engine) evChanRecv(fr *frame, ch *ChanVal)                     { panic(engineErr("event mode not built")) }
-func (e *Engine) evGo(fr *frame, g goroutine)                           { panic(engineErr("event mode not built")) }
-func (e *Engine) evLock(fr *frame, c *Cell, op string)                  { panic(engineErr("event mode not built")) }
-func (e *Engine) evAtomic(fr *frame, c *Cell, op string, v *Term) Value { panic(engineErr("event mode not built")) }
+func (e *Engine) evLoad(fr *frame, c *Cell) Value     { panic(engineErr("event mode not built")) }
+func (e *Engine) evStore(fr *frame, c *Cell, v Value) { panic(engineErr("event mode not built")) }
+func (e *Engine) evMapFind(fr *frame, m *MapVal, k Value) *mapEntry {
+	panic(engineErr("event mode not built"))
+}
+func (e *Engine) evChanClose(fr *frame, ch *ChanVal)   { panic(engineErr("event mode not built")) }
+func (e *Engine) evChanRecv(fr *frame, ch *ChanVal)    { panic(engineErr("event mode not built")) }
+func (e *Engine) evGo(fr *frame, g goroutine)          { panic(engineErr("event mode not built")) }
+func (e *Engine) evLock(fr *frame, c *Cell, op string) { panic(engineErr("event mode not built")) }
+func (e *Engine) evAtomic(fr *frame, c *Cell, op string, v *Term) Value {
+	panic(engineErr("event mode not built"))
+}
 func (e *Engine) evIntrinsic(fr *frame, name string, args []Value) (Value, bool) {
 	return nil, false
 }
